@@ -15,7 +15,7 @@ CHECK = {
                      "ClusterVerif/Gen/C08.lean"],
     "rule": "roundtrip: a record type (Pin 40%, PinOptions 10%, state dump 4%, the other 20 records uniformly) x one of the formats the system "
             "uses for it x a value drawn by a reflection-based generator with field-aware pools (all pin types, depths -1/0/1/2 and odd ones, "
-            "0-4 allocations, 0-3 origins with and without /p2p/, metadata incl. empty key/value, reference/update CIDs of both CID versions, "
+            "0-4 allocations (elements may be the empty peer ID), references nil / defined / pointing to cid.Undef, cid.Undef in every CID field,  0-3 origins with and without /p2p/, metadata incl. empty key/value, reference/update CIDs of both CID versions, "
             "expiry zero/unix-zero/first-second/past/future/pre-epoch with and without nanoseconds and in three time zones, names needing "
             "escaping, int32/int64/uint64 boundaries, the sharding adder's mode/depth shapes); equals: a pin, a variant (0-3 of 22 edits) and a "
             "variant of the variant; strings: named statuses, filters, a sweep of 0..8300, modes, types, parser words; decoders: byte/structure "
@@ -52,6 +52,7 @@ META = {
             "prediction and against the property's comparison.",
     "note": "Decoder robustness is search only (mutated encodings + random bytes under recover). Known findings on the unchanged tree: K01 origins not "
             "decodable (msgpack, JSON), K13 stored form loses Mode when it disagrees with MaxDepth, "
+            "K37/K38 a Reference pointing to cid.Undef is rejected by msgpack and read back as nil by JSON/protobuf, K39 zero-valued records with a required CID cannot be decoded from msgpack, K40 the empty peer ID is written and then rejected in every format, "
             "K16 msgpack nil in an address list decodes to a value that cannot be re-encoded (an error since f2e567e, no panic). "
             "K15 (JSON decoding of an invalid multiaddress panicked) is fixed by f2e567e, K14 (status filters widened by their string form) by d6bd794.",
     "technique": "Lean 4 decide-theorems over a reflection-generated schema table + theorems over hand models of the converters + differential correspondence + mutation-based decoder search",
